@@ -1,6 +1,7 @@
 import PpciVerif.Model.Leb128
 import PpciVerif.Spec.Leb
 import PpciVerif.Proofs.Leb128
+import PpciVerif.Proofs.T1_leb128
 /-!
 # C20 — LEB128 encoding is the canonical specification encoding
 
@@ -81,5 +82,104 @@ example : signedEncode (-1337) = [0xc7, 0x75] := by decide +kernel
 example : uencLoop 624485 = [0xe5, 0x8e, 0x26] := by decide +kernel
 example : sval [0x9b, 0xf1, 0x59] = some (-624485) := by decide +kernel
 example : uval [0x80, 0x00] = some 0 := by decide +kernel   -- a non-canonical encoding of 0
+
+/-! ### T1 translation tie: the functions REGENERATED from `ppci/utils/leb128.py`
+
+`Gen.Py_leb128.*` is written by `translate/py2lean.py` from the source text of the checked tree on
+every run.  The `gen_*_eq_model` theorems say that, for every input and every `fuel` above the
+stated bound, the regenerated function IS the hand model above (so `FuelExhausted` is never
+returned: the loops terminate); the remaining theorems restate the property directly about the
+regenerated functions.  `ints` maps a byte list to the `List Int` the translated code works on. -/
+section T1
+open Proofs.T1.Leb128 Model.PyRt
+
+theorem gen_signed_encode_eq_model (value : Int) (fuel : Nat) (hf : value.natAbs + 1 ≤ fuel) :
+    Gen.Py_leb128.signed_leb128_encode fuel value = .ok (ints (signedEncode value)) :=
+  Proofs.T1.Leb128.gen_signed_encode_eq_model value fuel hf
+
+theorem gen_unsigned_encode_eq_model (value : Int) (fuel : Nat) (hf : value.natAbs + 1 ≤ fuel) :
+    Gen.Py_leb128.unsigned_leb128_encode fuel value = liftBytes (unsignedEncode value) :=
+  Proofs.T1.Leb128.gen_unsigned_encode_eq_model value fuel hf
+
+theorem gen_signed_decode_eq_model (data : List Nat) (fuel : Nat) (hf : data.length + 1 ≤ fuel) :
+    Gen.Py_leb128.signed_leb128_decode fuel (ints data) = liftDecS (signedDecode data) :=
+  Proofs.T1.Leb128.gen_signed_decode_eq_model data fuel hf
+
+theorem gen_unsigned_decode_eq_model (data : List Nat) (fuel : Nat) (hf : data.length + 1 ≤ fuel) :
+    Gen.Py_leb128.unsigned_leb128_decode fuel (ints data) = liftDecU (unsignedDecode data) :=
+  Proofs.T1.Leb128.gen_unsigned_decode_eq_model data fuel hf
+
+/-- the regenerated signed encoder emits the canonical encoding of every integer -/
+theorem gen_signed_encode_canonical (z : Int) (fuel : Nat) (hf : z.natAbs + 1 ≤ fuel) :
+    ∃ bs : List Nat, Gen.Py_leb128.signed_leb128_encode fuel z = .ok (ints bs) ∧ SCanonical bs z :=
+  ⟨_, gen_signed_encode_eq_model z fuel hf, signed_encode_canonical z⟩
+
+/-- the regenerated unsigned encoder emits the canonical encoding of every natural number … -/
+theorem gen_unsigned_encode_canonical (n : Nat) (fuel : Nat) (hf : n + 1 ≤ fuel) :
+    ∃ bs : List Nat, Gen.Py_leb128.unsigned_leb128_encode fuel (n : Int) = .ok (ints bs) ∧ UCanonical bs n := by
+  refine ⟨uencLoop n, ?_, (unsigned_encode_canonical n).2⟩
+  rw [gen_unsigned_encode_eq_model (n : Int) fuel (by omega), (unsigned_encode_canonical n).1]; rfl
+
+/-- … and rejects every negative one (for every fuel: the loop is not reached) -/
+theorem gen_unsigned_encode_rejects_negative (z : Int) (h : z < 0) (fuel : Nat) (hf : z.natAbs + 1 ≤ fuel) :
+    Gen.Py_leb128.unsigned_leb128_encode fuel z = .error .ValueError := by
+  rw [gen_unsigned_encode_eq_model z fuel hf, unsigned_encode_rejects_negative z h]; rfl
+
+/-- the regenerated decoders return the denoted value of every well-formed encoding and leave the
+    iterator right after it -/
+theorem gen_unsigned_decode_denotes (bs : List Nat) (n : Nat) (rest : List Nat) (h : uval bs = some n)
+    (fuel : Nat) (hf : (bs ++ rest).length + 1 ≤ fuel) :
+    Gen.Py_leb128.unsigned_leb128_decode fuel (ints (bs ++ rest)) = .ok ((n : Int), ints rest) := by
+  rw [gen_unsigned_decode_eq_model _ fuel hf, unsigned_decode_denotes bs n rest h]; rfl
+
+theorem gen_signed_decode_denotes (bs : List Nat) (z : Int) (rest : List Nat) (h : sval bs = some z)
+    (fuel : Nat) (hf : (bs ++ rest).length + 1 ≤ fuel) :
+    Gen.Py_leb128.signed_leb128_decode fuel (ints (bs ++ rest)) = .ok (z, ints rest) := by
+  rw [gen_signed_decode_eq_model _ fuel hf, signed_decode_denotes bs z rest h]; rfl
+
+/-- round trip of the regenerated functions: decode (encode z ++ rest) = (z, rest) -/
+theorem gen_signed_roundtrip (z : Int) (rest : List Nat) (f1 f2 : Nat) (h1 : z.natAbs + 1 ≤ f1)
+    (h2 : (signedEncode z ++ rest).length + 1 ≤ f2) :
+    ∃ bs : List Nat, Gen.Py_leb128.signed_leb128_encode f1 z = .ok (ints bs) ∧
+      Gen.Py_leb128.signed_leb128_decode f2 (ints (bs ++ rest)) = .ok (z, ints rest) :=
+  ⟨_, gen_signed_encode_eq_model z f1 h1, gen_signed_decode_denotes _ z rest (senc_val z) f2 h2⟩
+
+theorem gen_unsigned_roundtrip (n : Nat) (rest : List Nat) (f1 f2 : Nat) (h1 : n + 1 ≤ f1)
+    (h2 : (uencLoop n ++ rest).length + 1 ≤ f2) :
+    ∃ bs : List Nat, Gen.Py_leb128.unsigned_leb128_encode f1 (n : Int) = .ok (ints bs) ∧
+      Gen.Py_leb128.unsigned_leb128_decode f2 (ints (bs ++ rest)) = .ok ((n : Int), ints rest) := by
+  obtain ⟨bs, hb, _⟩ := gen_unsigned_encode_canonical n f1 h1
+  have e : bs = uencLoop n := by
+    rw [gen_unsigned_encode_eq_model (n : Int) f1 (by omega), (unsigned_encode_canonical n).1] at hb
+    have := Except.ok.inj hb
+    simp only [ints] at this
+    exact (List.map_injective_iff.2 (fun a b h => by simpa using h) this).symm
+  subst e
+  exact ⟨_, hb, gen_unsigned_decode_denotes _ n rest (uenc_val n) f2 h2⟩
+
+/-- termination of the four regenerated loops: above the bound the fuel never runs out -/
+theorem gen_loops_terminate (z : Int) (data : List Nat) (f1 f2 : Nat) (h1 : z.natAbs + 1 ≤ f1) (h2 : data.length + 1 ≤ f2) :
+    Gen.Py_leb128.signed_leb128_encode f1 z ≠ .error .FuelExhausted ∧
+    Gen.Py_leb128.unsigned_leb128_encode f1 z ≠ .error .FuelExhausted ∧
+    Gen.Py_leb128.signed_leb128_decode f2 (ints data) ≠ .error .FuelExhausted ∧
+    Gen.Py_leb128.unsigned_leb128_decode f2 (ints data) ≠ .error .FuelExhausted := by
+  rw [gen_signed_encode_eq_model z f1 h1, gen_unsigned_encode_eq_model z f1 h1,
+    gen_signed_decode_eq_model data f2 h2, gen_unsigned_decode_eq_model data f2 h2]
+  refine ⟨by simp, ?_, ?_, ?_⟩
+  · cases unsignedEncode z with
+    | ok l => simp [liftBytes]
+    | error e => cases e <;> simp [liftBytes, errOf]
+  · cases signedDecode data with
+    | ok l => simp [liftDecS]
+    | error e => cases e <;> simp [liftDecS, errOf]
+  · cases unsignedDecode data with
+    | ok l => simp [liftDecU]
+    | error e => cases e <;> simp [liftDecU, errOf]
+
+example : Gen.Py_leb128.signed_leb128_encode 20 (-1337) = .ok [0xc7, 0x75] := by decide +kernel
+example : Gen.Py_leb128.signed_leb128_decode 20 [0x9b, 0xf1, 0x59, 7] = .ok (-624485, [7]) := by decide +kernel
+example : Gen.Py_leb128.signed_leb128_encode 1 (-1337) = .error .FuelExhausted := by decide +kernel  -- below the bound
+
+end T1
 
 end Props.C20
